@@ -249,6 +249,61 @@ func enumerate(shard, nshards int, yield func(Case)) {
 			}
 		}
 	}
+	// references to the document itself and to its containers ("#", "#/", "#/components", ...), where a
+	// schema and where a component of each kind is expected; and path items that have a reference and
+	// content of their own, the content being of the wrong JSON type in one place
+	{
+		base := jv.Parse(docgen.BaseDoc).(M)
+		whole := []string{"#", "#/", "#/components", "#/components/schemas", "#/paths", "#/info", "#/openapi", "#/components/", "#//", "#/components//S"}
+		for _, r := range whole {
+			for _, sect := range append(jv.Keys(base["components"].(M)), "") {
+				idx++
+				if idx%nshards != shard {
+					continue
+				}
+				d := jv.Clone(base).(M)
+				if idx%3 != 0 {
+					// without fields of its own at the top, the document has nothing "#/" could name
+					for _, k := range jv.Keys(d) {
+						if strings.HasPrefix(k, "x-") {
+							delete(d, k)
+						}
+					}
+				}
+				comps := d["components"].(M)
+				if sect == "" {
+					comps["schemas"].(M)["ZWhole"] = M{"type": "object", "properties": M{"d": M{"$ref": r}}}
+				} else {
+					comps[sect].(M)["ZWhole"] = M{"$ref": r}
+				}
+				b, _ := json.Marshal(d)
+				yield(Case{Files: map[string][]byte{"/w/root.json": b}, Root: "/w/root.json", Entry: []string{"data", "datawithpath"}[idx%2], AllowExt: idx%4 < 2})
+			}
+		}
+		paths := base["paths"].(M)
+		target := jv.Keys(paths)[0]
+		ptr := "#/paths/" + strings.ReplaceAll(strings.ReplaceAll(target, "~", "~0"), "/", "~1")
+		siblings := []M{
+			{"parameters": []any{nil}}, {"parameters": []any{M{"$ref": "#/components/parameters/P"}}}, {"parameters": []any{M{"$ref": "#/components/parameters/Nope"}}}, {"parameters": nil},
+			{"parameters": M{}}, {"get": nil}, {"get": M{"responses": nil}}, {"get": M{"responses": M{"200": nil}}}, {"get": M{"responses": M{"200": M{"$ref": "#/components/responses/R"}}}},
+			{"get": M{"parameters": []any{nil}, "responses": M{}}}, {"get": M{"requestBody": nil, "responses": M{"200": M{"description": "d"}}}}, {"servers": []any{nil}}, {"servers": []any{M{"url": "/x", "variables": M{"v": nil}}}},
+			{"summary": "s"}, {"get": M{"callbacks": M{"cb": nil}, "responses": M{"200": M{"description": "d"}}}}, {"get": M{"callbacks": M{"cb": M{"{$url}": M{"$ref": ptr, "parameters": []any{nil}}}}, "responses": M{"200": M{"description": "d"}}}},
+		}
+		for _, sib := range siblings {
+			for _, name := range []string{"/!before", "/zz-after"} {
+				idx++
+				if idx%nshards != shard {
+					continue
+				}
+				d := jv.Clone(base).(M)
+				pi := jv.Clone(sib).(M)
+				pi["$ref"] = ptr
+				d["paths"].(M)[name] = pi
+				b, _ := json.Marshal(d)
+				yield(Case{Files: map[string][]byte{"/w/root.json": b}, Root: "/w/root.json", Entry: []string{"data", "datawithpath"}[idx%2], AllowExt: idx%4 < 2})
+			}
+		}
+	}
 	// sharing ladders: an acyclic chain of 40 levels in which each level reaches the next one on two routes
 	// (every pair of schema keywords, wrapped in two properties or sitting on the level itself). There
 	// are 2^40 walks from the top to the bottom and 41 schemas: the work has to follow the schemas
